@@ -518,7 +518,15 @@ func (sp Spec) FreeRun(expectReplies int) (string, bool) {
 		wg.Add(1)
 		go func() { defer wg.Done(); e.reload() }()
 	}
-	wg.Wait()
+	done := make(chan struct{})
+	go func() { wg.Wait(); close(done) }()
+	select {
+	case <-done:
+	case <-time.After(30 * time.Second):
+		// the Serve loop or the reload never returned: a real deadlock between goroutines of
+		// the server code (a package-level lock may now be poisoned: the caller must stop)
+		return "HUNG", false
+	}
 	dl := time.Now().Add(20 * time.Second)
 	for time.Now().Before(dl) {
 		e.mu.Lock()
@@ -544,10 +552,12 @@ func Specs(thorough bool) []Spec {
 		{Name: "v4/S1-same-client-discover+request", Proto: 4, Blocks: 2, Dgrams: [][]byte{Discover4(a, 0x1601, []byte{6}), Request4(a, 0x1602, nil)}},
 		{Name: "v4/S2-two-clients-one-free-address", Proto: 4, Blocks: 2, Prefill: 1, Dgrams: [][]byte{Discover4(a, 0x1601, nil), Discover4(b, 0x1602, nil)}},
 		{Name: "v4/S4-static-lookup+reload", Proto: 4, Blocks: 2, Reload: true, Static: true, Dgrams: [][]byte{Discover4(StaticMAC, 0x1601, nil), Request4(StaticMAC, 0x1602, nil)}},
+		{Name: "v4/S4b-unknown-client-lookup+reload", Proto: 4, Blocks: 2, Reload: true, Dgrams: [][]byte{Discover4(a, 0x1601, nil), Discover4(StaticMAC, 0x1602, nil)}},
 		{Name: "v4/S5-buffer-reuse-two-different-datagrams", Proto: 4, Blocks: 4, Dgrams: [][]byte{Discover4(a, 0x1601, []byte{6, 1, 3}), Request4(b, 0x1602, nil)}},
 		{Name: "v6/S1-same-client-two-solicits", Proto: 6, Blocks: 2, Dgrams: [][]byte{Solicit6(a, x(1), true, false, ""), Solicit6(a, x(2), true, false, "")}},
 		{Name: "v6/S2-two-clients-one-free-block", Proto: 6, Blocks: 2, Prefill: 1, Dgrams: [][]byte{Solicit6(a, x(1), true, false, ""), Solicit6(b, x(2), true, false, "")}},
 		{Name: "v6/S4-static-lookup+reload", Proto: 6, Blocks: 2, Reload: true, Static: true, Dgrams: [][]byte{Solicit6(StaticMAC, x(1), false, true, ""), Solicit6(StaticMAC, x(2), true, true, "")}},
+		{Name: "v6/S4b-unknown-client-lookup+reload", Proto: 6, Blocks: 2, Reload: true, Dgrams: [][]byte{Solicit6(a, x(1), false, true, ""), Solicit6(StaticMAC, x(2), false, true, "")}},
 		{Name: "v6/S5-buffer-reuse-two-different-datagrams", Proto: 6, Blocks: 4, Dgrams: [][]byte{Solicit6(a, x(1), true, true, ""), Solicit6(b, x(2), true, false, "2001:db8:0:13::/64")}},
 	}
 	if thorough {
